@@ -42,13 +42,13 @@ def replay_sort(cases_path, out_path):
         n = c.get("_n", n)
         K, rev, na_last, perm = c["K"], c["rev"], c["naLast"], c["perm"]
         nk = len(rev)
-        tag = ["int", "str", "date", "float", "bool"][n % 5]
+        tag = ["int", "str", "date", "float", "bool", "dtsame"][n % 6]
         pal = (n // 5) % 3
         variant = (n // 15) % 12
         rows = [list(k) + [i, (-1 if i % 3 == 1 else i)] for i, k in enumerate(K)]
         # payload columns under distinct names, one repeated name, no names at all, or the first key's name again:
         # "cells kept together" and "keeps every column name in order" hold for all of them
-        names = ["s%d" % (i + 1) for i in range(nk)] + [["pos", "Pay Load"], ["pos", "pos"], [None, None], ["s1", "Pay Load"]][(n // 7) % 4]
+        names = ["s%d" % (i + 1) for i in range(nk)] + [["pos", "Pay Load"], ["pos", "pos"], [None, None], ["s1", "Pay Load"], [2023, 2.5], [("t", 1), False]][(n // 7) % 6]
         S = Side(rows, nk + 2, [tag] * nk + ["int", "str"], [pal] * nk + [0, 0], names)
         if tag == "bool":       # order-preserving on the key domain {1, 2}: 1 -> False, 2 -> True
             for cc in range(nk):
@@ -359,6 +359,26 @@ def replay_group(cases_path, out_path):
                     F.add("reduce_value", c, f"Vector.{f}() raised {err}", exp, {**info, "fun": f})
                 elif not rat_close(r, exp, f == "stdev"):
                     F.add("reduce_value", c, {f: r}, exp, {**info, "fun": f})
+    # the "textbook function" on values that are not small integers: a large common offset with a small spread, tiny and huge
+    # magnitudes, negative values (exact rational arithmetic as the reference; 1e-6 relative tolerance)
+    import math
+    from fractions import Fraction
+    for vals in ([1e9 + 1, 1e9 + 2, 1e9 + 3], [1e8 + 0.5, 1e8 + 1.5, 1e8 + 2.5, 1e8 + 3.5], [1e-9, 2e-9, 4e-9], [-5.5, 5.5, -5.5, 5.5],
+                 [10 ** 12 + 1, 10 ** 12 + 2, 10 ** 12 + 4], [0.1, 0.2, 0.3, 0.4], [123456789.125, 123456789.375]):
+        fr = [Fraction(x) for x in vals]
+        m = sum(fr) / len(fr)
+        var = sum((x - m) ** 2 for x in fr) / (len(fr) - 1)
+        ref = {"mean": float(m), "stdev": math.sqrt(var), "sum": float(sum(fr)), "min": min(vals), "max": max(vals)}
+        t = Table({"k": ["g"] * len(vals), "v": list(vals)})
+        for f, want in ref.items():
+            got = {"Vector": outcome_of(lambda: getattr(Vector(list(vals)), f)()),
+                   "aggregate": outcome_of(lambda: list(t.aggregate("k", **{f + "_over": "v"}).cols()[1])[0]),
+                   "window": outcome_of(lambda: list(t.window("k", **{f + "_over": "v"}).cols()[1])[-1])}
+            for how, (st, r, err) in got.items():
+                executed += 1
+                clause = {"Vector": "reduce_value", "aggregate": "agg_value", "window": "window_value"}[how]
+                if st != "ok" or r is None or abs(r - want) > 1e-6 * max(abs(want), 1e-300):
+                    F.add(clause, {"values": repr(vals), "function": f, "through": how}, r if st == "ok" else err, want, {})
     json.dump({"executed": executed, "failures": F.items, "per_clause": F.per, "skipped": {}, **mon.dump()},
               open(out_path, "w"), default=str)
 
